@@ -172,6 +172,8 @@ def walk (c : SeqCase) : Track → List Op → List Res → Nat → Verdict × T
             | .err .methodCalledAlready, _ => "call-object-sent-twice"
             | .none, _ => "iteration-did-not-end-after-the-final-reply"
             | _, .none => "iteration-ended-early"
+            | .err .badJson, .ok _ => "unterminated-or-malformed-reply-reported-as-success"
+            | .err .connectionClosed, .ok _ => "end-of-stream-reported-as-success"
             | .ok _, .err _ => "successful-reply-reported-as-error"
             | .err _, .ok _ => "error-reply-reported-as-success"
             | .err _, .err _ => "wrong-error-kind-or-payload"
